@@ -5,6 +5,7 @@ the matcher's index maps matter.  Everything is drawn from the PRNG handed in; n
 """
 import json
 import plistlib
+import random
 import xml.etree.ElementTree as ET
 
 STR_POOL = ["", "a", "b", "ab", "ba", "abc", "abd", "xbc", "aaa", "hello", "help", "é", "日本", "a b", "q\"t", "x\\y",
@@ -252,6 +253,17 @@ def mutate_xml(r, spec):
             n[3].insert(r.randint(0, len(n[3])), gen_xml(r, 0))
         elif n[3]:
             del n[3][r.randrange(len(n[3]))]
+    # text that differs only in surrounding whitespace (XMLElement equality ignores it, the text edit does not) on an
+    # element that differs elsewhere too.  Decided by a generator of its own, seeded from the result, so that the
+    # caller's stream - and with it every earlier case - is unchanged apart from this padding.
+    r2 = random.Random(json.dumps(spec, sort_keys=True))
+    if r2.random() < 0.2:
+        cands = [n for n in nodes if isinstance(n[2], str) and n[2].strip()]
+        if cands:
+            n = r2.choice(cands)
+            n[2] = r2.choice(["  ", "\n    ", " "]) + n[2] + r2.choice(["  ", "\n  ", ""])
+            if r2.random() < 0.7:
+                n[1]["pad"] = r2.choice(["1", "yes"])
     return spec
 
 
